@@ -843,7 +843,7 @@ package engine
 //@   ensures result == simplified(e, t)
 
 //@ func compileClause
-//@   property C10
+//@   property C10 C09
 //@   nosafety
 //@   modifies nothing
 //@   trusted-frame
@@ -855,6 +855,8 @@ package engine
 //@   ensures[a-body-is-compiled] body != nil ==> called(berr)
 //@   ensures[a-body-that-cannot-be-compiled-is-an-error] called(berr) && berr != nil ==> result1 != nil
 //@   ensures[anything-else-compiles] !(called(berr) && berr != nil) ==> result1 == nil
+//@   ensures[the-code-of-a-clause-is-never-empty-its-array-is-what-identifies-the-clause] result1 == nil ==> len(result0.bytecode) > 0
+//@   -- not decided: that the array is the clause's own (it grows from nil by append only; compileHead/compileBody would have to carry 'the old array or a fresh one')
 
 //@ func (*clause).compileHead
 //@   property C10
@@ -1045,9 +1047,6 @@ package engine
 //@       (cls(spec) == 2 && defIn(vm, name, 1)) || (cls(spec) == 1 && defIn(vm, name, 2)))
 
 //@ -- (*ListIterator).Next/Current/Err/Suffix: verified step contracts in verif_contracts_iter.go
-//@ func appendUniqNewAtom
-//@   trusted
-//@   modifies elems(slice)
 
 //@ spec fun tableSame(vm *VM) bool = true
 
@@ -1160,10 +1159,6 @@ package engine
 //@   pure
 //@   deterministic
 
-//@ func stream
-//@   trusted
-//@   modifies nothing
-//@   ensures err == nil ==> result != nil
 
 //@ type bufReader invariant[all-or-nothing] (self.Reader == nil) == (self.er == nil)
 //@ type streamType invariant[valid] self == 0 || self == 1
@@ -1925,7 +1920,8 @@ package engine
 //@   requires u != nil && k != nil
 //@   loop 1 invariant -1 <= $i && $i < old(len(u.clauses))
 //@   loop 1 invariant len(u.clauses) == old(len(u.clauses)) && backing(u.clauses) == old(backing(u.clauses)) && offset(u.clauses) == old(offset(u.clauses))
-//@   at-call append requires[deletes-the-very-clause] len(a0) < old(len(u.clauses)) && id(old(u.clauses[now(len(a0))].raw)) == id(c.raw)
+//@   at-call append requires[deletes-the-very-clause] len(a0) < old(len(u.clauses)) && len(c.bytecode) > 0 && backing(old(u.clauses[now(len(a0))].bytecode)) == backing(c.bytecode) &&
+//@       offset(old(u.clauses[now(len(a0))].bytecode)) == offset(c.bytecode)
 //@   onk[at-most-one-clause-goes] len(u.clauses) == old(len(u.clauses)) || len(u.clauses) == old(len(u.clauses)) - 1
 //@   bind cut = append#1
 //@   at-call append requires[keeps-every-clause-before-it] forall m int :: 0 <= m && m < len(a0) ==> a0[m].raw == old(u.clauses[m].raw) && a0[m].bytecode == old(u.clauses[m].bytecode)
@@ -2671,14 +2667,7 @@ package engine
 
 //@ ---------------------------------------------------------------- sub_atom/5 enumerates every split (C16)
 
-//@ func checkPositiveInteger
-//@   trusted
-//@   modifies nothing
 
-//@ func Delay
-//@   trusted
-//@   modifies nothing
-//@   ensures result != nil
 
 //@ func SubAtom
 //@   property C16
